@@ -47,6 +47,28 @@ CHECKS = {
         note="35-option table derived from config.rs and vpncloud.adoc; lists compared as bags; '/0' must give mask 0.0.0.0 or an error, never a panic",
         technique="TLA+ spec ConfigMerge + TLC; symbolic-value merge runs on real code; TLC trace validation",
         design_ref="DESIGN.md 3.7, 6 (C20); docs/C20.md"),
+    "C05": dict(
+        text="TLC checks Handshake.tla (objects as in HsObj.tla) for Agreement, AtMostOnce, HalvesDisjoint, CipherOK, AuthOnly over all schedules of {initiate by either/both, deliver any "
+             "in-flight datagram again, drop, tick, leap} with the code's 120/60 timer constants, both hash orders, cipher ties, plain sessions and all trust relations; every transition of the "
+             "boundary-restricted graphs is executed on real PeerCrypto<NodeInfo> pairs and TLC validates these runs and random depth-200 schedules: result kind and emission of every call, stage, "
+             "completion counts, cipher, nonce half, payload, rotation starter, cross-decryption probes.",
+        note="crypto symbolic in the spec; object level = one attempt per object; liveness stated but not model-checked (unbounded history), recovery deadline is checked on node-level traces",
+        technique="TLA+ spec Handshake/HsObj + TLC exhaustive; transition-cover replay on real PeerCrypto pairs; TLC trace validation",
+        design_ref="DESIGN.md 3.2, 6 (C05)"),
+    "C17": dict(
+        text="Beacon.tla/Base62.tla state the age window in 16-bit wrapping arithmetic and extraction over token sequences; TLC checks all 65536 stamps x 7 limits and every token sequence up to "
+             "length 5; the real BeaconSerializer is driven over address lists x all hour stamps x passwords, embeddings with separators, partial and overlapping markers, other passwords and "
+             "expired stamps; TLC judges every recorded event.",
+        note="probabilistic facts (1-byte seed) are not asserted; junk containing a marker is regenerated; one recorded known finding (leading zero byte of the masked body)",
+        technique="TLA+ reference operators (Beacon, Base62) + TLC; input families on real code; TLC trace validation",
+        design_ref="DESIGN.md 3.7, 6 (C17); docs/C17.md"),
+    "C18": dict(
+        text="Keys.tla/Base62.tla state the text codec as a number conversion with fixed-width re-padding and the life cycle generate -> print -> configure(role) -> use; TLC checks the codec on all "
+             "byte strings of length <= 2 and all seed classes x roles; real seeds with 0..2 leading zero bytes (chosen and found by password search), random seeds and dictionary passwords are "
+             "printed as key generation prints them, configured as private / private+public / trusted key and used in a real handshake; TLC judges every recorded event.",
+        note="public keys with 3-4 leading zero bytes are only covered at design level (not findable by search)",
+        technique="TLA+ reference operators (Keys, Base62) + TLC; key life cycle on real code; TLC trace validation",
+        design_ref="DESIGN.md 3.7, 6 (C18); docs/C18.md"),
 }
 
 PENDING = {}
